@@ -1593,12 +1593,48 @@ def eval_retort_group(ctx: Ctx, real: Real, case, rng):
             try:
                 if _norm_contains(real, real.norm(tp), real.norm(pred)):
                     continue    # ... also a part that only exists in the normal form (merged literal members)
+                if any(_norm_contains(real, real.norm(v), real.norm(pred)) for v in _proxied_variants(tp)):
+                    continue    # Mapping[K, V] / MutableMapping[K, V] are served by the providers of dict[K, V] (ABCProxy,
+                                # documented: "Loader accepts any Mapping and makes dict instances"): delegation, not a collapse
             except Exception:
                 continue
             real._cache.cache_clear()
             o, v = outcome(lambda: retort.load(None, tp))
             if v is _HIT:
                 ctx.fail(f"pred-collapse:{kind}", f"loader registered for {show(pred)} serves the different type {show(tp)}", case)
+
+
+def _rebuild(tp, origin, new_args):
+    try:
+        if origin is typing.Union or str(origin) == "<class 'types.UnionType'>":
+            return typing.Union[new_args]
+        if origin is typing.Annotated:
+            return typing.Annotated[(new_args[0], *tp.__metadata__)]
+        return origin[new_args]
+    except TypeError:
+        return None
+
+
+def _proxied_variants(tp, depth=0):
+    """the hint with ONE abstract mapping (at any position) replaced by the implementation ABCProxy delegates to"""
+    import collections.abc
+    abstract = (collections.abc.Mapping, collections.abc.MutableMapping)
+    origin, args = typing.get_origin(tp), typing.get_args(tp)
+    if origin is None:
+        if tp in abstract:
+            yield dict
+        return
+    if origin is typing.Literal or depth > 6:
+        return
+    if origin in abstract:
+        yield dict[args] if args else dict
+    for i, a in enumerate(args):
+        if isinstance(a, (list, type(Ellipsis))):
+            continue
+        for v in _proxied_variants(a, depth + 1):
+            nt = _rebuild(tp, origin, args[:i] + (v,) + args[i + 1:])
+            if nt is not None:
+                yield nt
 
 
 def _norm_contains(real: Real, n, part):
